@@ -138,7 +138,9 @@ Reset ==
                   /\ m' = [MInit EXCEPT !.run = r.run, !.broken = TRUE, !.ok = FALSE]
     /\ l' = l + 1
 
-IsOpEv(e) == e \in {"put", "del", "merge", "reopen"}
+\* "clock": the driver steps the wall clock (forwards or backwards).  Entries carry the time of their write,
+\* but the specification has no clock: the step changes nothing, and everything after it is judged as before.
+IsOpEv(e) == e \in {"put", "del", "merge", "reopen", "clock"}
 
 Op ==
     /\ l <= Len(Rec) /\ IsOpEv(Rec[l].ev)
